@@ -527,6 +527,9 @@ def _log_lookups(f: Func) -> List[str]:
                         out.append(" ".join(src(x, 120).split()))
                     elif isinstance(x, ast.Call) and dotted(x.func) in ("next", "int", "float", "max", "min"):
                         out.append(" ".join(src(x, 120).split()))
+                    elif isinstance(x, ast.Call) and isinstance(x.func, ast.Attribute) and x.func.attr in ("decode", "encode", "fromhex", "index", "to_bytes") \
+                            and not any(k.arg == "errors" for k in x.keywords):
+                        out.append(" ".join(src(x, 120).split()))  # partial conversions: raise on input they cannot represent
     return sorted(out)
 
 
